@@ -42,6 +42,35 @@ pub fn corpus() -> Vec<String> {
     all
 }
 
+/// Inputs built to hurt (C15 only): `<verif>/hostile/cases`. Those under `slow/` are known to
+/// run into the CPU bound and get a short one.
+pub fn hostile_cases_dir() -> Option<PathBuf> {
+    let p = extra_sources_dir()?.parent()?.join("hostile").join("cases");
+    p.is_dir().then_some(p)
+}
+
+pub fn hostile_corpus() -> Vec<String> {
+    let Some(dir) = hostile_cases_dir() else { return vec![] };
+    fn walk(dir: &Path, out: &mut Vec<PathBuf>) {
+        let Ok(rd) = std::fs::read_dir(dir) else { return };
+        let mut entries: Vec<PathBuf> = rd.filter_map(|e| e.ok()).map(|e| e.path()).collect();
+        entries.sort();
+        for p in entries {
+            match p.extension().and_then(|e| e.to_str()).unwrap_or("") {
+                "designspace" | "glyphs" | "ufo" | "glyphspackage" => out.push(p),
+                _ if p.is_dir() => walk(&p, out),
+                _ => {}
+            }
+        }
+    }
+    let mut found = Vec::new();
+    walk(&dir, &mut found);
+    found
+        .into_iter()
+        .filter_map(|p| p.strip_prefix(&dir).ok().map(|r| format!("hostile:{}", r.to_string_lossy())))
+        .collect()
+}
+
 /// `<verif>/sources`, found relative to this executable (`<verif>/sim/target/release/fontc-sim`)
 pub fn extra_sources_dir() -> Option<PathBuf> {
     if let Ok(home) = std::env::var("VERIF_HOME") {
@@ -244,6 +273,22 @@ pub fn groups(property: &str, tier: &str, seed: u64) -> Vec<Group> {
             }
         }
         "C15" => {
+            for src in hostile_corpus() {
+                // as the CLI would run them: default options, nothing injected on top
+                let mut reference = Plan::reference("C15", &src, opts[0].clone());
+                if src.starts_with("hostile:slow/") {
+                    reference.cpu_limit_s = Some(20);
+                }
+                let gseed = rng.next();
+                out.push(Group {
+                    property: "C15".into(),
+                    index: out.len(),
+                    position: 0,
+                    seed: gseed,
+                    reference,
+                    recipe: Recipe::C15 { n_job: 0, n_bytes: 0 },
+                });
+            }
             for src in &corpus {
                 let k = if rng.chance(2, 3) { 0 } else { 1 + rng.below(5) };
                 let reference = Plan::reference("C15", src, opts[k].clone());
@@ -321,6 +366,7 @@ fn byte_fault(rng: &mut Prng, files: &[String]) -> Option<Fault> {
         "src-truncate", "src-truncate", "src-bitrot", "src-bitrot", "src-delete", "src-misdirect", "src-empty",
         "src-dup-lines", "src-drop-lines", "src-drop-lines", "src-number", "src-number", "src-number",
         "src-cycle", "src-cycle", "src-cycle", "src-nest", "src-nest", "src-soup", "src-include", "src-include",
+        "src-tokens", "src-tokens", "src-tokens", "src-tokens", "src-long", "src-long", "src-chain",
     ]);
     let prefer: Vec<&String> = match kind {
         "src-cycle" => files
@@ -328,6 +374,13 @@ fn byte_fault(rng: &mut Prng, files: &[String]) -> Option<Fault> {
             .filter(|f| f.ends_with(".glyphs") || (f.ends_with(".glif") && rng.chance(1, 1)))
             .collect(),
         "src-include" => files.iter().filter(|f| f.ends_with(".fea") || f.ends_with(".glyphs")).collect(),
+        "src-chain" => files.iter().filter(|f| f.ends_with(".glif")).collect(),
+        // feature code has the richest grammar: half of the token edits go there
+        "src-tokens" if rng.chance(1, 2) => files.iter().filter(|f| f.ends_with(".fea")).collect(),
+        "src-tokens" | "src-long" => files
+            .iter()
+            .filter(|f| f.ends_with(".glyphs") || f.ends_with(".plist") || f.ends_with(".fea") || f.ends_with(".designspace") || f.ends_with(".glif"))
+            .collect(),
         "src-nest" | "src-soup" => files
             .iter()
             .filter(|f| f.ends_with(".glyphs") || f.ends_with(".plist") || f.ends_with(".fea") || f.ends_with(".designspace") || f.ends_with(".glif"))
